@@ -196,4 +196,342 @@ H1 = Harness(
     stubs=STUBS_COMMON,
 )
 
-HARNESSES = [H1]
+
+
+# ---------------------------------------------------------------------------- H2
+ROUTES = ["add_teardown_callback(pass_exception=True)", "add_resource(teardown_callback=)",
+          "@context_teardown generator", "start_service_task finalizer"]
+
+
+def h2_params(tier):
+    n = 3 if tier == "quick" else 4
+    ps = [P("n", 0, n), P("end", 0, 1), P("nested", 0, 1)]
+    for i in range(n):
+        ps += [P(f"route{i}", 0, 3), P(f"r{i}", 0, 1)]
+    return ps
+
+
+@guard
+def h2(a, tier):
+    nmax = 3 if tier == "quick" else 4
+    n = pick(a["n"], nmax + 1)
+    end = pick(a["end"], 2)
+    nested = pick(a["nested"], 2)
+    routes, raises = [], []
+    for i in range(n):
+        routes.append(pick(a[f"route{i}"], 4))
+        raises.append(pick(a[f"r{i}"], 2) if routes[-1] != 3 else 0)
+    log, excs, received = [], {}, {}
+    body_exc = BodyErr("body") if end else None
+    holder = {}
+
+    def finish(i):
+        log.append(("end", i))
+        if raises[i]:
+            excs[i] = CbErr(i)
+            raise excs[i]
+
+    async def register(ctx, i):
+        r = routes[i]
+        if r == 0:
+
+            def cb(exc):
+                log.append(("begin", i))
+                received[i] = exc
+                finish(i)
+
+            ctx.add_teardown_callback(cb, pass_exception=True)
+        elif r == 1:
+
+            async def cb():
+                log.append(("begin", i))
+                await anyio.sleep(0)
+                finish(i)
+
+            ctx.add_resource(object(), f"res{i}", teardown_callback=cb)
+        elif r == 2:
+
+            @context_teardown
+            async def gen():
+                exc = yield
+                log.append(("begin", i))
+                received[i] = exc
+                await anyio.sleep(0)
+                finish(i)
+
+            await gen()
+        else:
+
+            async def service():
+                try:
+                    await anyio.sleep_forever()
+                finally:
+                    log.append(("begin", i))
+                    log.append(("end", i))
+
+            await start_service_task(service, f"svc{i}")
+
+    async def block():
+        async with Context() as ctx:
+            holder["ctx"] = ctx
+            for i in range(n):
+                await register(ctx, i)
+            await anyio.sleep(0)
+            if body_exc is not None:
+                raise body_exc
+
+    async def main():
+        if nested:
+            async with Context():
+                return await block()
+        return await block()
+
+    _, outcome, k = run(main)
+    summary = {
+        "items": [{"route": ROUTES[routes[i]], "raises": bool(raises[i])} for i in range(n)],
+        "block_ends_with": "Exception" if end else "return",
+        "context": "nested" if nested else "root",
+    }
+    order = list(reversed(range(n)))
+    exp_log = []
+    for i in order:
+        exp_log += [("begin", i), ("end", i)]
+    if log != exp_log:
+        return FAIL(f"routes-order:{'/'.join(str(r) for r in routes)}", f"log={log} expected={exp_log}", summary)
+    for i, got in received.items():
+        if got is not body_exc:
+            return FAIL(f"routes-pass_exception:route={routes[i]}:end={end}", f"item {i} received {got!r}", summary)
+    if not holder["ctx"].closed:
+        return FAIL("not-closed", "", summary)
+    if k.live_tasks():
+        return FAIL("task-alive-after-exit", [t.name for t in k.live_tasks()], summary)
+    raised = [excs[i] for i in order if i in excs]
+    sig = _outcome_ok(outcome, body_exc, raised, not nested)
+    if sig:
+        return FAIL(f"routes-{sig}:end={end}:nested={nested}", f"outcome={outcome!r} raised={raised!r}", summary)
+    return OK(summary, nontrivial=n > 1)
+
+
+H2 = Harness(
+    prop="C01",
+    name="H2",
+    fn=h2,
+    params=h2_params,
+    cube=lambda tier: 3 if tier == "quick" else 4,
+    title="one global LIFO order across the four registration routes",
+    bound_text=lambda tier: f"n<={3 if tier == 'quick' else 4} items x route{{add_teardown_callback, add_resource(teardown_callback=), "
+    "@context_teardown, start_service_task}} x raises{no,Exception} x block end{return,Exception} x {root,nested}",
+    oracle="one LIFO order over all routes (service task's end observed where its finalizer runs); generator and "
+    "pass_exception callbacks receive the block's exception; outcome table; no task alive afterwards",
+    outside="more items; BaseException from callbacks (H1); service tasks that raise (C08)",
+    stubs=STUBS_COMMON,
+)
+
+
+# ---------------------------------------------------------------------------- H3
+def h3_params(tier):
+    ps = [P("n0", 0, 1)]
+    for j in range(2):
+        ps += [P(f"c{j}", 0, 2), P(f"r{j}", 0, 1)]
+        for m in range(2):
+            ps += [P(f"g{j}{m}", 0, 1), P(f"route{j}{m}", 0, 1), P(f"rr{j}{m}", 0, 1 if tier != "quick" else 0)]
+    return ps
+
+
+@guard
+def h3(a, tier):
+    n0 = 1 + pick(a["n0"], 2)
+    # program: initial callbacks j; child (j,m); grandchild (j,m,0)
+    prog = {}
+    for j in range(n0):
+        c = pick(a[f"c{j}"], 3)
+        prog[(j,)] = {"raises": pick(a[f"r{j}"], 2), "kids": [], "route": 0}
+        for m in range(c):
+            g = pick(a[f"g{j}{m}"], 2)
+            route = pick(a[f"route{j}{m}"], 2)
+            rr = pick(a[f"rr{j}{m}"], 2) if tier != "quick" else 0
+            prog[(j, m)] = {"raises": rr, "kids": [(j, m, 0)] if g else [], "route": route}
+            prog[(j,)]["kids"].append((j, m))
+            if g:
+                prog[(j, m, 0)] = {"raises": 0, "kids": [], "route": 0}
+    log, excs = [], {}
+    holder = {}
+
+    def make(key):
+        spec = prog[key]
+
+        def cb():
+            log.append(key)
+            ctx = holder["ctx"]
+            for kid in spec["kids"]:
+                if prog[kid]["route"] == 0:
+                    ctx.add_teardown_callback(make(kid))
+                else:
+                    ctx.add_resource(object(), "late" + "_".join(map(str, kid)), teardown_callback=make(kid))
+            if spec["raises"]:
+                excs[key] = CbErr(key)
+                raise excs[key]
+
+        return cb
+
+    async def main():
+        async with Context() as ctx:
+            holder["ctx"] = ctx
+            for j in range(n0):
+                ctx.add_teardown_callback(make((j,)))
+
+    _, outcome, _k = run(main)
+    # model: stack
+    stack = [(j,) for j in range(n0)]
+    exp = []
+    while stack:
+        x = stack.pop()
+        exp.append(x)
+        stack.extend(prog[x]["kids"])
+    summary = {"program": {"/".join(map(str, k)): {"registers": len(v["kids"]), "raises": bool(v["raises"]),
+                                                  "via": "add_resource" if v["route"] else "add_teardown_callback"}
+                           for k, v in prog.items()}}
+    if log != exp:
+        return FAIL("during-teardown-order", f"log={log} expected={exp}", summary)
+    raised = [excs[k] for k in exp if k in excs]
+    sig = _outcome_ok(outcome, None, raised, True)
+    if sig:
+        return FAIL(f"during-teardown-{sig}", f"outcome={outcome!r}", summary)
+    if not holder["ctx"].closed:
+        return FAIL("not-closed", "", summary)
+    return OK(summary, nontrivial=len(prog) > n0)
+
+
+H3 = Harness(
+    prop="C01",
+    name="H3",
+    fn=h3,
+    params=h3_params,
+    cube=lambda tier: 3,
+    title="callbacks registered during teardown (stack semantics, exactly once)",
+    bound_text=lambda tier: "1-2 initial callbacks, each registering 0-2 callbacks while it runs (via add_teardown_callback or "
+    "add_resource(teardown_callback=)), each of which may register one more; raising flags on initial"
+    + (" and late" if tier != "quick" else "") + " callbacks",
+    oracle="invocation log equals a stack machine's (late registrations run next, before older ones), each once; "
+    "group of the raised exceptions in invocation order",
+    outside="deeper registration chains; async late callbacks",
+    stubs=STUBS_COMMON,
+)
+
+
+# ---------------------------------------------------------------------------- H4
+def h4_params(tier):
+    S = 6 if tier == "quick" else 9
+    return [P("k", 0, 7), P("nested", 0, 1)] + [P(f"s{i}", 0, 2) for i in range(S)]
+
+
+@guard
+def h4(a, tier):
+    S = 6 if tier == "quick" else 9
+    k_steps = pick(a["k"], 8)
+    nested = pick(a["nested"], 2)
+    tape = Tape([a[f"s{i}"] for i in range(S)])
+    log = []
+    info = {}
+    Cancelled = symsched.Cancelled
+
+    def sync_cb(exc):
+        log.append(("begin", 0))
+        info["received"] = exc
+        log.append(("end", 0))
+
+    async def async_cb(i, checkpoints):
+        log.append(("begin", i))
+        try:
+            for _ in range(checkpoints):
+                await anyio.sleep(0)
+        except BaseException as e:
+            log.append(("cancelled" if isinstance(e, Cancelled) else "error", i))
+            raise
+        log.append(("end", i))
+
+    async def canceller(scope):
+        for _ in range(k_steps):
+            await anyio.sleep(0)
+        info["cancel_sent"] = True
+        scope.cancel()
+
+    async def block(scope):
+        try:
+            async with Context() as ctx:
+                info["ctx"] = ctx
+                ctx.add_teardown_callback(sync_cb, pass_exception=True)
+                ctx.add_teardown_callback(lambda: async_cb(1, 1))
+                ctx.add_teardown_callback(lambda: async_cb(2, 2))
+                try:
+                    for i in range(3):
+                        await anyio.sleep(0)
+                    info["body"] = "completed"
+                except BaseException as e:
+                    info["body"] = e
+                    raise
+        except BaseException as e:
+            info["left_with"] = e
+            raise
+
+    async def main():
+        async with anyio.create_task_group() as tg:
+            scope = anyio.CancelScope()
+            tg.start_soon(canceller, scope)
+            with scope:
+                if nested:
+                    async with Context():
+                        await block(scope)
+                else:
+                    await block(scope)
+
+    _, outcome, _k = run(main, chooser=tape)
+    summary = {"canceller_checkpoints_before_cancel": k_steps, "context": "nested" if nested else "root",
+               "schedule": tape.taken, "body": repr(info.get("body")), "log": [f"{a_}{b}" for a_, b in log]}
+    begins = [i for ev, i in log if ev == "begin"]
+    if begins != [2, 1, 0]:
+        return FAIL("cancel-order", f"log={log}", summary)
+    # one at a time: every begin is followed by its own end/cancelled before the next begin
+    for idx in range(0, len(log), 2):
+        if idx + 1 >= len(log) or log[idx][0] != "begin" or log[idx + 1][1] != log[idx][1] or log[idx + 1][0] == "error":
+            return FAIL("cancel-overlap-or-error", f"log={log}", summary)
+    body = info.get("body")
+    if body == "completed":
+        if info.get("received") is not None:
+            return FAIL("cancel-pass_exception:clean-body-got-exception", repr(info.get("received")), summary)
+    else:
+        if not isinstance(body, Cancelled):
+            return FAIL("cancel-body-unexpected", repr(body), summary)
+        if info.get("received") is not body:
+            return FAIL("cancel-pass_exception:cancelled-body", f"received={info.get('received')!r} body={body!r}", summary)
+    if not info["ctx"].closed:
+        return FAIL("not-closed", "", summary)
+    left = info.get("left_with")
+    cancelled_cbs = [i for ev, i in log if ev == "cancelled"]
+    if left is not None and not all(isinstance(x, Cancelled) for x in flatten(left)):
+        return FAIL("cancel-foreign-exception", repr(left), summary)
+    if cancelled_cbs and left is None:
+        return FAIL("cancel-swallowed-callback-cancellation", f"log={log}", summary)
+    if outcome is not None:
+        return FAIL("cancel-outcome", repr(outcome), summary)
+    return OK(summary, nontrivial=isinstance(body, Cancelled) or bool(cancelled_cbs))
+
+
+H4 = Harness(
+    prop="C01",
+    name="H4",
+    fn=h4,
+    params=h4_params,
+    cube=lambda tier: 2 if tier == "quick" else 3,
+    title="block or teardown cancelled at any checkpoint, under all schedule prefixes",
+    bound_text=lambda tier: f"canceller task cancels the scope around the block after 0-7 checkpoints; block has 3 checkpoints; "
+    f"3 callbacks (sync with pass_exception, async with 1 and with 2 checkpoints); root/nested; first {6 if tier == 'quick' else 9} "
+    "scheduling decisions arbitrary (<=3 runnable tasks), FIFO afterwards",
+    oracle="all callbacks begin exactly once in reverse order, one at a time; sync callback completes; cancelled callbacks end "
+    "with the backend's cancellation; pass_exception gets the cancellation that ended the block (None if the body completed); "
+    "context closed; nothing but cancellation leaves the block",
+    outside="what the surrounding cancel scope does with a group of cancellations (backend specific)",
+    stubs=STUBS_COMMON,
+)
+
+HARNESSES = [H1, H2, H3, H4]
